@@ -38,6 +38,23 @@ def plan(tier, seed):
                         "shape": list(sh), "beta2": b2, "beta1": b1,
                         "wd": wd, "norm": norm, "depth": depth, "seed": seed,
                         "profile": {"x64": False}})
+  # bfloat16 tensors (accumulators must not be summed in 8 bits of
+  # mantissa: one large gradient, |g| = 16, then ordinary ones) and a
+  # gradient entry whose square overflows float32
+  for sh in [(3,), (2, 3), (2, 1, 3)]:
+    for b1 in [0.0]:
+      tasks.append({"name": "sm3/%s/bf16/b2=1.0" % "x".join(map(str, sh)),
+                    "shape": list(sh), "beta2": 1.0, "beta1": b1, "wd": 0.0,
+                    "norm": False, "depth": depth, "seed": seed,
+                    "dtype": "bfloat16", "events": ["gBig16", "gP2a", "gP2b"],
+                    "profile": {"x64": False}})
+      for b2 in [1.0, 0.5]:
+        tasks.append({"name": "sm3/%s/ovf/b2=%s" % ("x".join(map(str, sh)),
+                                                    b2),
+                      "shape": list(sh), "beta2": b2, "beta1": b1, "wd": 0.0,
+                      "norm": False, "depth": depth, "seed": seed,
+                      "events": ["gA", "gOvf", "gB"],
+                      "profile": {"x64": False}})
   return {
       "tasks": tasks,
       "rule": "all histories over {gA,gB,g0,gSeed} up to the depth bound per "
@@ -62,9 +79,30 @@ def run_task(task):
   eps = 1e-10
   opt = sm3.sm3(lr, beta1=b1, beta2=b2, diagonal_epsilon=eps,
                 weight_decay=wd, normalize_grads=norm)
-  params = {"w": jnp.asarray(grads.dyadic(sh, "P"))}
-  names = ["gA", "gB", "g0", "gSeed"]
-  alpha = grads.alphabet(sh, names, seed=task["seed"])
+  jdt = jnp.bfloat16 if task.get("dtype") == "bfloat16" else jnp.float32
+  params = {"w": jnp.asarray(grads.dyadic(sh, "P")).astype(jdt)}
+  names = task.get("events") or ["gA", "gB", "g0", "gSeed"]
+  alpha = grads.alphabet(sh, [n for n in names if n in
+                              ("gA", "gB", "g0", "gSeed")] or ["gA"],
+                         seed=task["seed"])
+  if "gBig16" in names:     # every entry +-16 (exact in bfloat16)
+    alpha["gBig16"] = (np.sign(alpha["gA"]) + (alpha["gA"] == 0)) * \
+        np.float32(16.0)
+  sgn = lambda a: np.sign(a) + (a == 0)
+  if "gP2a" in names:       # entries +-1 and +-1/2, +-2: squares are exact
+    alpha["gP2a"] = (sgn(alpha["gA"]) * np.float32(1.0)).astype(np.float32)
+    pw = np.float32(2.0) ** ((np.arange(alpha["gA"].size) % 3) - 1)
+    alpha["gP2b"] = (sgn(alpha["gA"][::-1] if alpha["gA"].ndim == 1 else
+                         alpha["gA"]) * pw.reshape(alpha["gA"].shape)
+                     ).astype(np.float32)
+    alpha = {k: v for k, v in alpha.items() if k in names}
+  if "gOvf" in names:       # one entry whose square overflows float32
+    g = alpha["gA"].copy()
+    g.flat[g.size // 2] = np.float32(2.0**67)
+    alpha["gOvf"] = g
+  if jdt == jnp.bfloat16:   # round the alphabet to bfloat16 once: exact
+    alpha = {k: np.asarray(jnp.asarray(v).astype(jdt).astype(jnp.float32))
+             for k, v in alpha.items()}
   upd = jax.jit(opt.update)
   s0 = opt.init(params)
   exact = (b2 in (1.0, 0.5)) and not norm
@@ -73,7 +111,7 @@ def run_task(task):
   p64 = np.asarray(params["w"], np.float64)
 
   def step(s, ev):
-    u, s2 = upd({"w": jnp.asarray(alpha[ev])}, s, params)
+    u, s2 = upd({"w": jnp.asarray(alpha[ev]).astype(jdt)}, s, params)
     return u, s2
 
   w1 = (1.0 - b1) if b1 != 1.0 else 1.0
@@ -132,6 +170,12 @@ def run_task(task):
       ada = g / np.sqrt(gamma2 + eps)
       pre = -u / lr - wd * p64          # SM3's preconditioned gradient
       tol = 1e-6 * (np.abs(ada) + 1e-30) + 1e-12
+      if jdt == jnp.bfloat16:
+        tol = 2.0**-6 * (np.abs(ada) + 1e-30)
+      # a second moment beyond the float32 range is stored as +inf (step 0):
+      # the bound holds trivially there, equality is not defined
+      ovf = gamma2 > 3.0e38
+      ada = np.where(ovf, np.where(np.abs(pre) <= np.abs(ada), pre, ada), ada)
       if not np.all(np.abs(pre) <= np.abs(ada) + tol):
         i = int(np.argmax(np.abs(pre) - np.abs(ada)))
         acc.outcome("viol_step_bound")
